@@ -63,3 +63,34 @@ Proof.
   - intros v c m Hc Hv. exact (parse_conn_bidir v c Hc m Hv).
 Qed.
 Print Assumptions C10_model_holds.
+
+(* Part 3: further defect classes, read contrapositively from what the model accepts.
+   (a) protocols with mismatching widths: in an axi network ALL protocols share one data and one user width, whatever
+       their optional type labels (seed C10-mut4 compared only equally labelled ones); in a narrow-wide network every
+       protocol has a type and the narrow (wide) ones agree among themselves;
+   (b) an unconnected endpoint: every compiled interface has a link to a router and a link from a router;
+   (c) two links on one router port: link edges into one router that name the same (non-negative) direction are one
+       and the same connection end;
+   (d) a duplicated connection: a built graph has at most one edge per (source, destination). *)
+From FV Require Import Graph Compile Side ParseProofs HwProofs WireProofs.
+Theorem C10_model_more :
+  (forall v d, parse_desc v = Ok d ->
+     (d_nw d = false -> forall p q, In p (d_protos d) -> In q (d_protos d) -> p_data p = p_data q /\ p_user p = p_user q) /\
+     (d_nw d = true ->
+        (forall p, In p (d_protos d) -> p_type p <> None) /\
+        forall k, k = "narrow" \/ k = "wide" -> forall p q, In p (d_protos d) -> In q (d_protos d) ->
+          of_kind k p = true -> of_kind k q = true -> p_data p = p_data q /\ p_user p = p_user q)) /\
+  (forall d g c, compile d g = Ok c -> forall x, In x (c_nis c) ->
+     fst (cn_mgr_link x) = cn_name x /\ is_link_of g (cn_mgr_link x) /\
+     snd (cn_sbr_link x) = cn_name x /\ is_link_of g (cn_sbr_link x)) /\
+  (forall d g rt rid r, compile_router d g rt rid = Ok r ->
+     forall e1 e2 k, In e1 (filter is_link (edges_to g (n_name rt))) -> In e2 (filter is_link (edges_to g (n_name rt))) ->
+       e_dst_dir e1 = Some k -> e_dst_dir e2 = Some k -> 0 <= k -> epair e1 = epair e2) /\
+  (forall d g, build d = Ok g -> edges_nodup g).
+Proof.
+  split; [exact parse_desc_widths|]. split; [exact compile_ni_links|]. split; [|exact build_edges_nodup].
+  intros d g rt rid r Hc e1 e2 k H1 H2 D1 D2 Hk.
+  pose proof (dir_in_slot d g rt rid r Hc e1 k H1 D1 Hk) as S1. pose proof (dir_in_slot d g rt rid r Hc e2 k H2 D2 Hk) as S2.
+  congruence.
+Qed.
+Print Assumptions C10_model_more.
